@@ -292,7 +292,7 @@ def run(R, tier):
     R.floor("R14.6", "failing paths of the fixed-capacity formatter", n_err_total, 4)
     # ---- R14.7 channel specs: a malformed spec is a command error, a well-formed number the target cannot hold a value fault --
     from . import chanspec as CS
-    tab = CS.table()
+    tab = CS.table(tier == "thorough")
     per = {}
     for (ty, txt), (got, ref, cb) in sorted(tab.items(), key=lambda kv: (kv[0][0], kv[0][1])):
         if ref[0] != "Err":
